@@ -1,4 +1,285 @@
-import NriModel.Basic
-/-! Property theorems for C11 — placeholder until the model is written. -/
+import NriModel.Lemmas.MuxStream
+import NriModel.Lemmas.MuxSys
+/-!
+Property theorems for C11 — the multiplexer fails stop: no gaps after errors, nothing hangs
+after close.  Model: `NriModel/Mux.lean` (one mux end as a transition system; `step s ev =
+none` means "this operation with this result does not happen / does not return").
+
+Not proved here (measured by the fault campaign of the check): that blocked goroutines are
+actually woken, and wall-clock promptness — the model has no Go scheduler.
+-/
 namespace Nri.Props.C11
+open Nri.Mux
+
+/-- Truncating the trunk at any byte offset: the reader sees a prefix of the frames. -/
+theorem C11_prefix (s : Bytes) (k : Nat) : (decode (s.take k)).1 <+: (decode s).1 :=
+  decode_prefix_mono (List.take_prefix k s)
+
+/-- … hence on every connection a prefix of the frames addressed to it, and a prefix of
+    the byte stream. -/
+theorem C11_truncated_stream (s : Bytes) (k id : Nat) :
+    payloadsOf id (decode (s.take k)).1 <+: payloadsOf id (decode s).1 ∧
+    bytesDelivered id (decode (s.take k)).1 <+: bytesDelivered id (decode s).1 :=
+  ⟨payloadsOf_prefix (C11_prefix s k), flatten_prefix (payloadsOf_prefix (C11_prefix s k))⟩
+
+/-- The frame-at-a-time reader of the two-ended model used by the correspondence check
+    (`decodeOne`, `MuxSys.lean`) is the `decode` of these theorems. -/
+theorem C11_reader_is_decode (s : Bytes) :
+    decode s = match decodeOne s with
+      | some (f, rest) => (f :: (decode rest).1, (decode rest).2)
+      | none => ([], s) :=
+  decode_eq_decodeOne s
+
+/-- Nothing is damaged or invented: the decoded frames followed by the incomplete tail
+    re-encode to exactly the bytes that arrived. -/
+theorem C11_decode_sound (s : Bytes) : encodeFrames (decode s).1 ++ (decode s).2 = s :=
+  decode_sound s
+
+example : (decode ([0, 0, 0, 1, 0, 0, 0, 2, 7, 8, 0, 0, 0, 1, 0, 0, 0, 1, 9].take 14)).1 =
+    [⟨1, [7, 8]⟩] := by simp [decode, be32]
+
+/-- Which error the reader records when the trunk ends at the incomplete tail `t`
+    (transcribed from `io.ReadFull`): clean end or end right after a header ⇒ EOF; inside a
+    header ⇒ header error; inside a payload ⇒ payload error. -/
+theorem C11_reader_end (t : Bytes) :
+    (t.length = 0 ∨ t.length = 8 → readerEnd t = .eof) ∧
+    (0 < t.length ∧ t.length < 8 → readerEnd t = .hdr) ∧
+    (8 < t.length → readerEnd t = .payload) := by
+  refine ⟨?_, ?_, ?_⟩ <;> intro h <;> simp only [readerEnd] <;> (repeat' split) <;>
+    first | rfl | (exfalso; omega)
+
+/-- No gap, no duplicate, no reordering under any failure: in EVERY run of a mux end — any
+    interleaving of reader deliveries, queue overflow at any position, reader failure, Close
+    of the mux or of single connections at any step, Reads, Writes, re-Opens — what Read has
+    handed out on a connection object is a prefix of the frames the reader routed to its id
+    since the object was opened.  (Guard: reader buffers at least as long as the frames.) -/
+theorem C11_no_gap (cfg : Cfg) (tr : List Ev) (s : MuxSt) (hg : bigBuffers tr = true)
+    (hr : run (MuxSt.init cfg) tr = some s) (h : Nat) (c : Conn) (hc : s.objs[h]? = some c) :
+    received h tr <+: (payloadsOf c.id (delivered tr)).drop c.base := by
+  have hi := run_inv (Inv.init cfg) hg hr
+  have ho := hi.obj h c hc
+  have hrc := run_rc h hr
+  have hseen := run_seen hr
+  simp only [rc, rcOf, MuxSt.init, hc, List.getElem?_nil, List.nil_append] at hrc hseen
+  rw [← hrc, ← hseen]
+  exact (ho.split ▸ List.prefix_append c.rcvd c.queue).trans ho.got_pre
+
+/-- The usual case — the connection is opened before the reader has routed anything to its
+    id (both ends open their connections before traffic): received ⊑ sent. -/
+theorem C11_no_gap_opened_first (cfg : Cfg) (pre post : List Ev) (id h : Nat) (s : MuxSt)
+    (hg : bigBuffers (pre ++ Ev.openNew id h :: post) = true)
+    (hr : run (MuxSt.init cfg) (pre ++ Ev.openNew id h :: post) = some s)
+    (hfirst : countFor id (delivered pre) = 0) :
+    received h (pre ++ Ev.openNew id h :: post)
+      <+: payloadsOf id (delivered (pre ++ Ev.openNew id h :: post)) := by
+  -- the object exists in the final state
+  have hex : ∃ c, s.objs[h]? = some c := by
+    rw [run_append] at hr
+    cases h1 : run (MuxSt.init cfg) pre with
+    | none => simp [h1] at hr
+    | some s1 =>
+      simp only [h1, Option.bind_some, run] at hr
+      split at hr
+      · rename_i s2 h2
+        simp only [Mux.step] at h2
+        split at h2
+        · rename_i hcond
+          cases h2
+          obtain ⟨c1, hc1, _⟩ := run_stable (h := h)
+            (c := { id := id, base := countFor id s1.seen, closed := s1.cfg.lateClosed && s1.closed }) hr (by simp [hcond.2.2])
+          exact ⟨c1, hc1⟩
+        · cases h2
+      · cases hr
+  obtain ⟨c, hc⟩ := hex
+  obtain ⟨hid, hbase⟩ := base_of_open hr hc
+  have := C11_no_gap cfg _ s hg hr h c hc
+  rw [hid, hbase, hfirst, List.drop_zero] at this
+  exact this
+
+/-- End to end under truncation: the sender's writes `ws` (any order of whole writes), the
+    trunk cut at any byte `k`, the receiving end running in any way on the frames that got
+    through (`delivered tr` is a prefix of them): the bytes read on a connection opened
+    before traffic are a prefix of the bytes written to its id. -/
+theorem C11_end_to_end (cfg : Cfg) (hmp : 0 < cfg.mp) (hmp32 : cfg.mp < 2 ^ 32)
+    (ws : List (Nat × Bytes)) (hids : ∀ w ∈ ws, w.1 < 2 ^ 32) (k : Nat)
+    (pre post : List Ev) (id h : Nat) (s : MuxSt)
+    (hg : bigBuffers (pre ++ Ev.openNew id h :: post) = true)
+    (hr : run (MuxSt.init cfg) (pre ++ Ev.openNew id h :: post) = some s)
+    (hfirst : countFor id (delivered pre) = 0) :
+    ∃ trunk, encodeWrites cfg.mp ws = some trunk ∧
+      (delivered (pre ++ Ev.openNew id h :: post) <+: (decode (trunk.take k)).1 →
+        (received h (pre ++ Ev.openNew id h :: post)).flatten
+          <+: ((ws.filter (·.1 == id)).map (·.2)).flatten) := by
+  have hb := specFrames_bounds cfg.mp hmp (by simpa using hmp32) ws (by simpa using hids)
+  have hdec := decode_frames (specFrames cfg.mp ws) hb []
+  refine ⟨_, encodeWrites_eq cfg.mp hmp ws, ?_⟩
+  intro hdel
+  have h1 := C11_no_gap_opened_first cfg pre post id h s hg hr hfirst
+  have h2 : delivered (pre ++ Ev.openNew id h :: post) <+: specFrames cfg.mp ws := by
+    have hdec' : decode (encodeFrames (specFrames cfg.mp ws)) = (specFrames cfg.mp ws, []) := by
+      simpa [decode_nil] using hdec
+    have := hdel.trans (C11_prefix (encodeFrames (specFrames cfg.mp ws)) k)
+    rw [hdec'] at this; exact this
+  have h3 := flatten_prefix (h1.trans (payloadsOf_prefix (id := id) h2))
+  have h4 := bytesDelivered_specFrames cfg.mp id ws
+  unfold bytesDelivered at h4
+  rw [h4] at h3
+  exact h3
+
+/-- The first error is latched: once `m.err` is set no step changes it, and every error
+    any Read returned during a run equals the error latched at the end of the run — so all
+    Reads on all connections of one mux report the same error. -/
+theorem C11_error_latched (s s' : MuxSt) (tr : List Ev) (hr : run s tr = some s') :
+    (∀ e, s.err = some e → s'.err = some e) ∧
+    (∀ e ∈ readErrors tr, s'.err = some e) ∧
+    (∀ e1 ∈ readErrors tr, ∀ e2 ∈ readErrors tr, e1 = e2) := by
+  refine ⟨fun e he => run_err_mono hr he, readErrors_latched hr, ?_⟩
+  intro e1 h1 e2 h2
+  have a := readErrors_latched hr e1 h1
+  have b := readErrors_latched hr e2 h2
+  rw [a] at b; exact Option.some.inj b
+
+/-- A failure closes everything: after the reader fails (trunk error, truncation), after a
+    queue overflows, or after `Close`, every connection object that exists is closed. -/
+theorem C11_fail_closes_all (cfg : Cfg) (tr : List Ev) (s s' : MuxSt) (ev : Ev)
+    (hg : bigBuffers tr = true) (hr : run (MuxSt.init cfg) tr = some s)
+    (hopen : s.closed = false)
+    (hev : (∃ e, ev = .readerFail e) ∨ (∃ f, ev = .overflow f) ∨ ev = .closeMux)
+    (hs : step s ev = some s') :
+    s'.closed = true ∧ ∀ (h : Nat) (c : Conn), s'.objs[h]? = some c → c.closed = true := by
+  have hi := run_inv (Inv.init cfg) hg hr
+  rcases hev with ⟨e, rfl⟩ | ⟨f, rfl⟩ | rfl
+  · simp only [Mux.step] at hs
+    split at hs
+    · cases hs
+    · cases hs
+      refine ⟨by simp, fun h c hc => ?_⟩
+      exact doClose_all_closed (hi.setError e) (by simpa using hopen) hc
+  · simp only [Mux.step] at hs
+    (repeat' split at hs) <;> (try cases hs)
+    refine ⟨by simp, fun h c hc => ?_⟩
+    exact doClose_all_closed (hi.setError .overflow) (by simpa using hopen) hc
+  · simp only [Mux.step] at hs
+    cases hs
+    exact ⟨by simp, fun h c hc => doClose_all_closed hi hopen hc⟩
+
+/-- Nothing hangs on a closed connection: Read returns (some result is enabled — the
+    latched error, or, by Go's `select`, a frame still queued), Write returns EOF, Close of
+    the connection and of the mux return; and closedness is permanent, so this stays true
+    after any further run. -/
+theorem C11_closed_returns (s : MuxSt) (h : Nat) (c : Conn) (hc : s.objs[h]? = some c)
+    (hcl : c.closed = true) :
+    (∀ blen bcap, blen ≤ bcap → ∃ s', step s (.read h blen bcap (.err (s.err.getD .eof))) = some s') ∧
+    (∀ p, step s (.write h p .errEof) = some s) ∧
+    (∃ s', step s (.closeConn h) = some s') ∧
+    (∃ s', step s .closeMux = some s') ∧
+    (∀ tr s', run s tr = some s' → ∃ c', s'.objs[h]? = some c' ∧ c'.closed = true) := by
+  refine ⟨?_, ?_, ?_, ?_, ?_⟩
+  · intro blen bcap hle
+    exact ⟨setError s .eof, by simp [Mux.step, hc, hle, hcl]⟩
+  · intro p; simp [Mux.step, hc, hcl]
+  · exact ⟨_, by simp [Mux.step, hc]; rfl⟩
+  · exact ⟨_, rfl⟩
+  · intro tr s' hr
+    obtain ⟨c', hc', st⟩ := run_stable hr hc
+    exact ⟨c', hc', st.2.2 hcl⟩
+
+/-- By contrast a Read on an OPEN connection with an empty queue is not enabled with any
+    result — it blocks (so "returns" above is not vacuous). -/
+theorem C11_open_empty_read_blocks (s : MuxSt) (h : Nat) (c : Conn) (hc : s.objs[h]? = some c)
+    (hopen : c.closed = false) (hq : c.queue = []) (blen bcap : Nat) (r : ReadRes) :
+    step s (.read h blen bcap r) = none := by
+  cases r <;> simp [Mux.step, hc, hopen, hq]
+
+/-- After the reader goroutine has returned, Reads hand out at most what was queued — at
+    most `qlen` frames (in a run from the initial state under the buffer guard) — and from
+    then on only the latched error. -/
+theorem C11_drain_bound (cfg : Cfg) (tr tr' : List Ev) (s s' : MuxSt) (h : Nat)
+    (hg : bigBuffers tr = true) (hr : run (MuxSt.init cfg) tr = some s)
+    (hdone : s.readerDone = true) (hr' : run s tr' = some s') :
+    (received h tr').length ≤ cfg.qlen := by
+  have hb := run_drain h hr' hdone
+  have hi := run_inv (Inv.init cfg) hg hr
+  have hcfg : s.cfg = cfg := run_cfg hr
+  cases ho : s.objs[h]? with
+  | none =>
+    have : qlOf s.objs h = 0 := by simp [qlOf, ho]
+    omega
+  | some c =>
+    have hq : qlOf s.objs h = c.queue.length := by simp [qlOf, ho]
+    have := (hi.obj h c ho).qbound
+    rw [hcfg] at this; omega
+
+/-- Close is idempotent: a second `Close` of the mux, or of a connection, changes nothing. -/
+theorem C11_close_idempotent (s s' : MuxSt) :
+    (step s .closeMux = some s' → step s' .closeMux = some s') ∧
+    (∀ h s'', step s (.closeConn h) = some s' → step s' (.closeConn h) = some s'' → s'' = s') := by
+  constructor
+  · intro hs
+    simp only [Mux.step] at hs ⊢
+    cases hs
+    by_cases h : s.closed = true <;> simp [doClose, h]
+  · intro h s'' h1 h2
+    simp only [Mux.step] at h1
+    split at h1
+    · cases h1
+    · rename_i c0 hc0
+      have hlt0 : h < s.objs.length := (List.getElem?_eq_some_iff.mp hc0).1
+      cases h1
+      simp only [Mux.step, List.getElem?_set, hlt0, if_true] at h2
+      simp only [Option.some.injEq] at h2
+      rw [← h2]
+      by_cases hm : AList.lookup s.cmap c0.id = some h
+      · simp [hm, AList.lookup_erase_self]
+      · simp [hm]
+
+/-- The listener wrapper hands its connection out exactly once, and once it is closed every
+    Accept returns (the connection if it was never taken, then EOF); Close is idempotent. -/
+theorem C11_listener (l : Lst) :
+    (∀ r l', l.accept = some (r, l') → l'.next = false) ∧
+    (l.next = false → ∀ r l', l.accept = some (r, l') → r = .eof) ∧
+    (l.closed = true → l.accept ≠ none) ∧
+    (l.close.2.closed = true ∧ l.close.2.close = (false, l.close.2)) ∧
+    (l.closed = false ∧ l.next = false → l.accept = none) := by
+  refine ⟨?_, ?_, ?_, ?_, ?_⟩
+  · intro r l' h
+    simp only [Lst.accept] at h
+    split at h
+    · cases h; rfl
+    · split at h
+      · cases h; simp_all
+      · cases h
+  · intro hn r l' h
+    simp only [Lst.accept, hn] at h
+    (repeat' split at h) <;> simp_all
+  · intro hc; simp only [Lst.accept, hc]; split <;> simp
+  · simp only [Lst.close]; split <;> simp_all
+  · intro ⟨hc, hn⟩; simp [Lst.accept, hc, hn]
+
+/-! ### the unchanged code: a connection opened after the mux has closed never learns of it
+(finding C11:open-after-close) -/
+
+/-- `Open` after `Close` hands out a fresh, open connection object: its Read is not enabled
+    with any result — it blocks for ever, although the mux is closed. -/
+theorem unfixed_open_after_close_read_blocks :
+    ∃ s, run (MuxSt.init { mp := 4, qlen := 4 }) [.closeMux, .openNew 1 0] = some s ∧ s.closed = true ∧
+      ∀ blen bcap r, step s (.read 0 blen bcap r) = none := by
+  refine ⟨_, rfl, rfl, ?_⟩
+  intro blen bcap r
+  exact C11_open_empty_read_blocks _ 0 { id := 1 } rfl rfl rfl blen bcap r
+
+/-- With the repaired `Open` (docs/fixes/C11-1.patch; the harness measures which behaviour
+    the implementation has and passes it as `cfg.lateClosed`): once the mux is closed EVERY
+    connection object is closed, whenever it was opened — so by `C11_closed_returns` every
+    Read, Write and Close on every logical connection returns. -/
+theorem C11_repaired_closed_mux_all_closed (cfg : Cfg) (hlate : cfg.lateClosed = true)
+    (tr : List Ev) (s : MuxSt) (hg : bigBuffers tr = true)
+    (hr : run (MuxSt.init cfg) tr = some s) (hcl : s.closed = true) :
+    ∀ (h : Nat) (c : Conn), s.objs[h]? = some c → c.closed = true :=
+  run_allClosed (s := MuxSt.init cfg) hlate (Inv.init cfg)
+    (by intro hc; simp [MuxSt.init] at hc) hg hr hcl
+
+example : ∃ s c, run (MuxSt.init { mp := 4, qlen := 4, lateClosed := true }) [.closeMux, .openNew 1 0] = some s ∧
+    s.objs[0]? = some c ∧ c.closed = true := ⟨_, _, rfl, rfl, rfl⟩
+
 end Nri.Props.C11
